@@ -150,7 +150,9 @@ class DynamicComponent(Component):
             # was already escaped (if set so).
             escape_slots_content=False,
             type=self.input.type,
-            render_dependencies=self.input.render_dependencies,
+            # NOTE: The markers of the inner component stay in the output; they are processed once, together with the
+            # marker of the dynamic component itself, when the render that contains the dynamic component is finished.
+            render_dependencies=False,
         )
 
         context["output"] = output
